@@ -150,7 +150,7 @@ class GinProp(Prop):
         cw = self.correspondence(case, evs)
         ow = self.oracle(case, evs)
         key, tags = self.key_tags(case, evs)
-        return Verdict(not cw, not ow, "; ".join([w[:500] for w in ow[:5] + cw[:3]]), key, tags)
+        return Verdict(not cw, not ow, " ;; ".join([w[:500] for w in ow[:5] + cw[:3]]), key, tags)
 
     def shrink_candidates(self, case):
         ops = case["ops"]
@@ -573,7 +573,7 @@ class C08(Prop):
         nm = len(mo["all"])
         key = "".join(sorted(hand)) + f"|{case['max_dw']}|{case['stop']}" if nm >= 2 else None
         tags = [f"cards={len(hand)}", f"melds={min(nm, 6)}", "gin" if (not isinstance(sp, str) and sp["dw"] == 0 and hand) else "no-gin"]
-        return Verdict(agree, holds, "; ".join(why[:4]), key, tags)
+        return Verdict(agree, holds, " ;; ".join(why[:4]), key, tags)
 
 
 class C12(Prop):
@@ -654,7 +654,7 @@ class C12(Prop):
         key = "".join(sorted(hand)) + "|" + str(sorted(map(sorted, case["opp"]))) if can else None
         tags = ["set-layoff" if any(c[0] in {next(iter(m))[0] for m in opp if gin.is_set(m) and len(m) == 3} for c in io["lo"]) else "no-set-layoff",
                 "run-layoff" if any(not gin.is_set(m) for m in opp) and io["lo"] else "no-run-layoff", f"stop={case['stop']}"]
-        return Verdict(agree, holds, "; ".join(why[:4]), key, tags)
+        return Verdict(agree, holds, " ;; ".join(why[:4]), key, tags)
 
 
 class C19(Prop):
@@ -715,4 +715,4 @@ class C19(Prop):
             if not (frozenset(s[:4]) in m4 and frozenset(s[4:7]) in m3):
                 holds = False; why.append(f"sorted hand {s} does not list the 4-meld and the 3-meld first")
         key = "".join(sorted(hand)) if (m3 or m4) else None
-        return Verdict(agree, holds, "; ".join(why[:3]), key, [f"cards={len(hand)}", "zero" if spec == 0 else "nonzero"])
+        return Verdict(agree, holds, " ;; ".join(why[:3]), key, [f"cards={len(hand)}", "zero" if spec == 0 else "nonzero"])
